@@ -203,7 +203,9 @@ def gen_program(r: Rng, n_instr: int, allow_control: bool = True, base: int = CO
             tgt = base + r.choice(starts)
             ins[-3], ins[-2], ins[-1] = tgt & 0xFF, (tgt >> 8) & 0xFF, (tgt >> 16) & 0x0F
         if 0x12 <= op <= 0x1F and op not in (0x14, 0x15, 0x16, 0x17) and len(ins) >= 2:
-            ins[-1] = r.range(0, 12)          # short relative displacements stay near the code
+            # short relative displacements stay near the code; one in six is a large one (0x7F and up: the
+            # displacement byte is unsigned, direction comes from the opcode)
+            ins[-1] = r.range(0, 12) if r.chance(5, 6) else r.choice([0x7F, 0x80, 0x90, 0xC0, 0xFF])
         starts.append(len(code))
         code.extend(ins)
     # pad with NOPs so that falling off the last instruction stays decodable until the region ends
